@@ -632,6 +632,10 @@ def join_logical_lines(lines):
     nbuf = 0
     ins = False
     for ln in lines:
+        if buf is None and ("\u2502" in ln or "\u257e" in ln):
+            # a row of an `allocN { ... }` hex dump: its ASCII column may contain any character
+            out.append(ln)
+            continue
         # scan this physical line, continuing the in-string state
         i = 0
         n = len(ln)
